@@ -2,7 +2,6 @@ package sample
 
 import (
 	"math/rand"
-	"time"
 
 	dynsampler "github.com/honeycombio/dynsampler-go"
 
@@ -21,7 +20,7 @@ func createDynForEMADynamicSampler(c *config.EMADynamicSamplerConfig) *dynsample
 
 	dynsampler := &dynsampler.EMASampleRate{
 		GoalSampleRate:             c.GoalSampleRate,
-		AdjustmentIntervalDuration: time.Duration(c.AdjustmentInterval),
+		AdjustmentIntervalDuration: dynsamplerInterval(c.AdjustmentInterval),
 		Weight:                     c.Weight,
 		AgeOutValue:                c.AgeOutValue,
 		BurstDetectionDelay:        c.BurstDetectionDelay,
